@@ -374,8 +374,10 @@ class Worker:
         for key, task in list(self._tasks.items()):
             if task.is_descendant_of(addr):
                 task.cancel()
-                for mailbox_id in task.owned_mailboxes:
-                    self._mailboxes.pop(mailbox_id)
+                for mailbox_id in list(task.owned_mailboxes):
+                    # The task may be running a step that cancels or
+                    # consumes one of its own futures at this moment
+                    self._mailboxes.pop(mailbox_id, None)
                 self._tasks.pop(key, None)
 
         # Remove all tasks that are children of `addr` from delayed tasks.
